@@ -73,6 +73,13 @@ def verif_fingerprint():
                 if f.endswith((".tla", ".cfg", ".go", ".py", ".java", ".json", ".sh")):
                     h.update(f.encode())
                     h.update(open(os.path.join(root, f), "rb").read())
+    # the hand-written behaviour corpora replayed by the families are inputs of a run as well
+    sd = os.path.join(VERIF, "seeded")
+    if os.path.isdir(sd):
+        for f in sorted(os.listdir(sd)):
+            if f.endswith(".ndjson"):
+                h.update(f.encode())
+                h.update(open(os.path.join(sd, f), "rb").read())
     return h.hexdigest()
 
 
